@@ -84,12 +84,18 @@ impl TryFrom<&[u8]> for Request {
         let ins = Command::from(value[1]);
         let p1 = value[2];
         let data_start = REQUEST_HEADER_LEN + 1;
+        if value.len() < data_start {
+            return Err(ResponseStatusWords::WrongLength);
+        }
         // SAFETY: This unwrap is safe since 3..7 gives 4 bytes which is a safe conversion to an
         // array of len 4. Technically the first of these bytes is `p2` the second parameter,
         // but in the base U2F spec this will always be 0. So this length is safe.
         let data_len = u32::from_be_bytes(value[3..data_start].try_into().unwrap()) as usize;
-        let data_end = data_start + data_len;
-        let payload = &value[data_start..data_end];
+        // The declared length comes from the message itself, it must fit within what was received.
+        let payload = data_start
+            .checked_add(data_len)
+            .and_then(|data_end| value.get(data_start..data_end))
+            .ok_or(ResponseStatusWords::WrongLength)?;
 
         let data = match ins {
             Command::Register => RequestPayload::Register(
@@ -98,10 +104,16 @@ impl TryFrom<&[u8]> for Request {
                     // Wrong length because it must be two SHA256's which are 32 bytes each
                     .map_err(|_| ResponseStatusWords::WrongLength)?,
             ),
-            Command::Authenticate => RequestPayload::Authenticate(
-                AuthenticationRequest::try_from(payload, p1)
-                    .map_err(|_| ResponseStatusWords::WrongLength)?,
-            ),
+            Command::Authenticate => {
+                // Only the control bytes defined by the specification can be converted.
+                if !matches!(p1, 0x03 | 0x07 | 0x08) {
+                    return Err(ResponseStatusWords::WrongData);
+                }
+                RequestPayload::Authenticate(
+                    AuthenticationRequest::try_from(payload, p1)
+                        .map_err(|_| ResponseStatusWords::WrongLength)?,
+                )
+            }
             Command::Version => RequestPayload::Version,
             Command::Unsuported(_) => return Err(ResponseStatusWords::InsNotSupported),
         };
